@@ -324,6 +324,9 @@ type Cond struct {
 	// LoopExit: the condition is the exit test of a loop (the If sits on a cycle and the taken
 	// successor leaves that cycle). Such conditions say "the loop ran to completion".
 	LoopExit bool
+	// LoopHeader: the If is the condition of a loop header block (for.loop, range*.loop): either
+	// polarity is loop control ("another element exists" / "the loop ran to completion").
+	LoopHeader bool
 }
 
 // Guards returns the branch conditions that are known on entry to block b: for every If whose
@@ -345,9 +348,9 @@ func Guards(b *ssa.BasicBlock) []Cond {
 		td := t.Dominates(b) && len(t.Preds) == 1
 		fd := f.Dominates(b) && len(f.Preds) == 1
 		if td && !fd {
-			out = append(out, Cond{ifi.Cond, true, ifi, isLoopHeader(d) && !BlockReaches(t, d)})
+			out = append(out, Cond{ifi.Cond, true, ifi, isLoopHeader(d) && !BlockReaches(t, d), isLoopHeader(d)})
 		} else if fd && !td {
-			out = append(out, Cond{ifi.Cond, false, ifi, isLoopHeader(d) && !BlockReaches(f, d)})
+			out = append(out, Cond{ifi.Cond, false, ifi, isLoopHeader(d) && !BlockReaches(f, d), isLoopHeader(d)})
 		}
 	}
 	return out
@@ -381,7 +384,7 @@ type Atom struct {
 func Atoms(b *ssa.BasicBlock) []Atom {
 	var out []Atom
 	for _, g := range Guards(b) {
-		if g.LoopExit {
+		if g.LoopExit || g.LoopHeader {
 			continue
 		}
 		out = append(out, condAtoms(g.V, g.Val)...)
@@ -1188,4 +1191,10 @@ func AllPathsReturnAvoidingNot(b *ssa.BasicBlock, through ssa.Instruction) bool 
 		return false
 	}
 	return !walk(b)
+}
+
+// PathFromEntryAvoidingTo reports whether target can be reached from fn's entry without
+// executing avoid.
+func PathFromEntryAvoidingTo(fn *ssa.Function, target, avoid ssa.Instruction) bool {
+	return PathFromEntryAvoiding(fn, func(in ssa.Instruction) bool { return in == target }, []ssa.Instruction{avoid})
 }
